@@ -611,6 +611,8 @@ WITNESSES = {
     "K16e": ([True], 'True', {"strict_checking": False}),
     "K16f": ({None: 'a'}, None, {}),
 }
+# second witness of K16 (Coq: complete_refuted): nothing is reported when the item's own type is excluded
+EXTRA_WITNESSES = [("K16", [1], '1', {"exclude_types": ["str"], "strict_checking": False})]
 
 
 def full_cfg(part):
@@ -643,9 +645,44 @@ def do_case(ctx, obj, item, cfg, cases, tag):
     ctx.count("item:" + type(item).__name__)
     ctx.count("exclusions:" + ("+".join(k[8:] for k in ("exclude_paths", "exclude_regex_paths", "exclude_types") if cfg[k]) or "none"))
     ctx.count("verbose:%d" % cfg["verbose_level"])
+    guard_stats(ctx, obj, item, cfg, locs)
+    if ctx.evaluations % 7 == 0:      # the `obj | grep(item, **kw)` entry point gives the same result
+        from deepdiff import grep
+        try:
+            g = obj | grep(item, **kwargs_of(cfg))
+            gres = ("ok", [(k, (g["matched_paths"][k] if verbose2 else None)) for k in g.get("matched_paths", {})],
+                    [(k, (g["matched_values"][k] if verbose2 else None)) for k in g.get("matched_values", {})],
+                    sorted(k for k in g.keys() if k not in ("matched_paths", "matched_values")))
+        except TypeError:
+            gres = ("raise", "TypeError")
+        ctx.count("grep_operator:checked")
+        if expected_of(gres, verbose2) != expected_of(res, verbose2):
+            ctx.fail(case_dict(obj, item, cfg, "obj | grep(item) gives %r" % (gres,)), "obj | grep(item, ...) differs from DeepSearch(obj, item, ...)")
     oracle(ctx, obj, item, cfg, res, locs)
     cases.append((model_case(obj, item, cfg, locs), expected_of(res, verbose2),
                   {"tag": tag, "obj": repr(obj), "item": repr(item), "options": cfg}))
+
+
+def guard_stats(ctx, obj, item, cfg, locs):
+    """Fraction of the generated cases inside each guard of the _partial theorems."""
+    ex_types = tuple(TYPES[t] for t in cfg["exclude_types"])
+    ex_paths = set(cfg["exclude_paths"])
+    ex_rx = [re.compile(p) for p in cfg["exclude_regex_paths"]]
+    eff = effective_item(item, cfg)
+    item_ex = bool(ex_types) and not cfg["use_regexp"] and isinstance(eff, ex_types)
+    k16 = not (ex_types and isinstance(obj, ex_types)) and not any(
+        s and s[-1][0] == "k" and ex_types and isinstance(v, ex_types) for s, v, _ in locs)
+    k16b = not any(s and s[-1][0] == "k" and (path_text(s) in ex_paths or any(r.search(path_text(s)) for r in ex_rx))
+                   for s, v, _ in locs)
+    bfree = not isinstance(item, bytes) and not any(isinstance(v, bytes) for _, v, _ in locs)
+    if cfg["exclude_types"]:
+        ctx.count("guard:exclude_types_given")
+        ctx.count("guard:k16_guard_" + ("holds" if k16 else "fails") + "_given_exclude_types")
+        ctx.count("guard:item_type_" + ("excluded" if item_ex else "not_excluded") + "_given_exclude_types")
+    if cfg["exclude_paths"] or cfg["exclude_regex_paths"]:
+        ctx.count("guard:k16b_guard_" + ("holds" if k16b else "fails") + "_given_path_exclusions")
+    ctx.count("guard:bytes_free_" + ("yes" if bfree else "no"))
+    ctx.count("guard:item_is_None_" + ("yes" if item is None else "no"))
 
 
 HEADER = ("From DD Require Import Base.PyStr Base.Value Search.SearchModel Search.SearchShow.\nLocal Open Scope Z_scope.\n"
@@ -710,7 +747,7 @@ def universe_cases(ctx, limit):
 def witnesses(ctx):
     """Each open finding's witness must still fail on the implementation (else the model is stale)."""
     cases = []
-    for key, (obj, item, part) in sorted(WITNESSES.items()):
+    for key, (obj, item, part) in sorted(WITNESSES.items()) + [(k, (o, i, p_)) for k, o, i, p_ in EXTRA_WITNESSES]:
         cfg = full_cfg(part)
         kw = kwargs_of(cfg)
         res = run_impl(copy.deepcopy(obj), item, kw)
@@ -735,7 +772,7 @@ def witnesses(ctx):
 
 def run(ctx):
     witnesses(ctx)
-    random_cases(ctx, 12000 if ctx.thorough else 2500)
+    random_cases(ctx, 12000 if ctx.thorough else 4000)
     universe_cases(ctx, 12000 if ctx.thorough else 600)
 
 
